@@ -174,7 +174,7 @@ static int filter_assembly_str_fsa(const char unfiltered_str[],
   int i = 0;
   while (unfiltered_str[i] != ';' && unfiltered_str[i] != '%' &&
          unfiltered_str[i] != '\r' && unfiltered_str[i] != '\n' &&
-         unfiltered_str[i] != '\0' && j < MAX_LINE_LEN) {
+         unfiltered_str[i] != '\0' && j < MAX_LINE_LEN - 1) {
     switch (filter_state) {
     case BEGIN:
       if (unfiltered_str[i] >= 'A' && unfiltered_str[i] <= 'z') {
@@ -206,6 +206,15 @@ static int filter_assembly_str_fsa(const char unfiltered_str[],
       return NA;
     }
     i++;
+  }
+  // the line does not fit the filter buffer (the last byte is kept for the
+  // terminator): reject it rather than assemble a truncated line
+  if (unfiltered_str[i] != ';' && unfiltered_str[i] != '%' &&
+      unfiltered_str[i] != '\r' && unfiltered_str[i] != '\n' &&
+      unfiltered_str[i] != '\0') {
+    AL_VERIF_FILTERED(unfiltered_str, filter_str, j, NA);
+    fprintf(stderr, "assembyline: line too long\n");
+    return NA;
   }
   AL_VERIF_FILTERED(unfiltered_str, filter_str, j, i);
   return i;
